@@ -23,9 +23,13 @@ func (st *state) loader(load, fetch, clear *core.Fn) {
 	fn := load // the function that scans the databases: LoadCheckpoint or a helper it calls
 	info := fn.Pkg.TypesInfo
 	isFetch := func(_ *ast.CallExpr, callee types.Object) bool { return callee == types.Object(fetch.Obj) }
+	// the rules work on views in which same-package helpers are part of the body; the anchored
+	// functions themselves stay calls
+	opaque := st.opaque
+	loadView := tt.ViewOf(c.Program, load, "c14", opaque)
 	var viaCall *ast.CallExpr // the call of the helper in LoadCheckpoint
-	if len(core.Calls(load.Decl.Body, info, isFetch)) == 0 {
-		for _, call := range core.Calls(load.Decl.Body, info, func(*ast.CallExpr, types.Object) bool { return true }) {
+	if len(core.Calls(loadView.Body, info, isFetch)) == 0 {
+		for _, call := range core.Calls(loadView.Body, info, func(*ast.CallExpr, types.Object) bool { return true }) {
 			if h := c.FnOf(core.CalleeFunc(info, call)); h != nil && h.Decl.Body != nil && h.Pkg.TypesInfo == info && h.Obj != fetch.Obj && len(core.Calls(h.Decl.Body, info, isFetch)) > 0 {
 				fn, viaCall = h, call
 			}
@@ -41,9 +45,10 @@ func (st *state) loader(load, fetch, clear *core.Fn) {
 		}
 		return nil
 	}
-	body := fn.Decl.Body
-	g := cfgq.Of(c.Program, fn)
-	x := tt.New(g)
+	view := tt.ViewOf(c.Program, fn, "c14", opaque)
+	body := view.Body
+	g := view.G
+	x := view.X(c.Program)
 	calls := core.Calls(body, info, isFetch)
 	if len(calls) != 1 {
 		c.Undecidedf("R2.newest", "LoadCheckpoint/fetch", fn.Decl.Pos(), "expected one call of fetchCheckpoint, found %d", len(calls))
@@ -67,9 +72,11 @@ func (st *state) loader(load, fetch, clear *core.Fn) {
 	// the loop ranges over the result of ParseKeyspace and looks at every database
 	okList := false
 	mpExpr := lift(loop.X)
-	if d, ok := tt.SingleDef(info, load.Decl.Body, mpExpr); mpExpr != nil && ok && d.Index == 0 {
-		if call, ok := ast.Unparen(d.Rhs).(*ast.CallExpr); ok && core.IsFunc(core.CalleeFunc(info, call), pkgUtils, "", "ParseKeyspace") {
-			okList = true
+	if mpExpr != nil {
+		if d, ok := tt.SingleDef(info, loadView.Body, tt.Resolve(info, loadView.Body, mpExpr, 6)); ok && d.Index == 0 {
+			if call, ok := ast.Unparen(d.Rhs).(*ast.CallExpr); ok && core.IsFunc(core.CalleeFunc(info, call), pkgUtils, "", "ParseKeyspace") {
+				okList = true
+			}
 		}
 	}
 	dbKey := localObj(info, loop.Key)
@@ -79,7 +86,20 @@ func (st *state) loader(load, fetch, clear *core.Fn) {
 	core.Inspect(loop.Body, func(n ast.Node) bool {
 		switch s := n.(type) {
 		case *ast.BranchStmt:
-			if s.Tok == token.GOTO || s.Tok == token.BREAK && tt.BreaksLoop(loop.Body, s) {
+			if s.Tok == token.GOTO {
+				// the exit of an inlined helper: harmless when it stays inside the loop body or hands
+				// back a non-nil error
+				inside := false
+				core.Inspect(loop.Body, func(m ast.Node) bool {
+					if ls, ok := m.(*ast.LabeledStmt); ok && s.Label != nil && ls.Label.Name == s.Label.Name {
+						inside = true
+					}
+					return true
+				})
+				if !inside && !view.IsErrorExit(x, s) {
+					early = c.Src(s)
+				}
+			} else if s.Tok == token.BREAK && tt.BreaksLoop(loop.Body, s) {
 				early = c.Src(s)
 			}
 		case *ast.ReturnStmt:
@@ -195,8 +215,14 @@ func (st *state) loader(load, fetch, clear *core.Fn) {
 		init := int64(0)
 		found := false
 		for _, d := range tt.DefsOf(info, body, rec[1]) {
-			if _, isDecl := d.Stmt.(*ast.ValueSpec); isDecl && d.Rhs != nil {
-				init, found = core.IntConst(info, d.Rhs)
+			// the definition before the loop: `var newest = -1`, `newest := -1`, `offset, version = -1, -1`
+			if st, isStmt := d.Stmt.(ast.Stmt); isStmt && x.LoopOf(st) == ast.Stmt(loop) {
+				continue
+			}
+			if d.Rhs != nil && d.Index == -1 {
+				if v, isConst := core.IntConst(info, d.Rhs); isConst {
+					init, found = v, true
+				}
 			}
 		}
 		if found {
@@ -209,6 +235,37 @@ func (st *state) loader(load, fetch, clear *core.Fn) {
 		return
 	}
 
+	// the recorded values may be handed on through copies after the loop (results of an inlined
+	// helper, renamed locals): follow `a, b, c, d := runId, offset, recDb, version`
+	for pass := 0; pass < 3; pass++ {
+		core.Inspect(body, func(n ast.Node) bool {
+			as, ok := n.(*ast.AssignStmt)
+			if !ok || len(as.Lhs) != len(as.Rhs) || x.LoopOf(as) == ast.Stmt(loop) {
+				return true
+			}
+			matched := 0
+			for i := range as.Rhs {
+				for k := range rec {
+					if r := localObj(info, as.Rhs[i]); r != nil && r == rec[k] && rootIdent(info, as.Rhs[i]) == ast.Unparen(as.Rhs[i]) {
+						matched++
+					}
+				}
+			}
+			if matched < 2 {
+				return true // a copy of the whole record, not a single use
+			}
+			for i := range as.Rhs {
+				for k := range rec {
+					if r := localObj(info, as.Rhs[i]); r != nil && r == rec[k] {
+						if l := localObj(info, as.Lhs[i]); l != nil {
+							rec[k] = l
+						}
+					}
+				}
+			}
+			return true
+		})
+	}
 	srcExpr, nameExpr := ast.Expr(nil), ast.Expr(nil)
 	if len(calls[0].Args) == 4 {
 		srcExpr, nameExpr = lift(calls[0].Args[0]), lift(calls[0].Args[3])
@@ -224,7 +281,7 @@ func (st *state) loader(load, fetch, clear *core.Fn) {
 			}
 			return true
 		})
-		lp, _ := cfgq.Of(c.Program, load).Find(viaCall)
+		lp, _ := loadView.G.Find(viaCall)
 		las, ok := lp.Node().(*ast.AssignStmt)
 		if hret == nil || !ok || len(las.Rhs) != 1 || len(las.Lhs) != len(hret.Results) {
 			c.Undecidedf("R3.gate", "LoadCheckpoint/result", viaCall.Pos(), "cannot relate the results of %s to the variables of LoadCheckpoint", fn.Decl.Name.Name)
@@ -243,9 +300,10 @@ func (st *state) loader(load, fetch, clear *core.Fn) {
 			}
 		}
 		copy(rec, lrec[:])
-		body = load.Decl.Body
-		g = cfgq.Of(c.Program, load)
-		x = tt.New(g)
+		body = loadView.Body
+		g = loadView.G
+		x = loadView.X(c.Program)
+		view = loadView
 		fn = load
 	}
 	rets := successReturns(info, body)
@@ -290,9 +348,10 @@ func (st *state) loader(load, fetch, clear *core.Fn) {
 			return "", false
 		}
 		op := be.Op
+		rx, ry := tt.Resolve(info, body, be.X, 6), tt.Resolve(info, body, be.Y, 6)
 		switch {
-		case localObj(info, be.X) == rec[2] && isFC(be.Y):
-		case localObj(info, be.Y) == rec[2] && isFC(be.X):
+		case localObj(info, rx) == rec[2] && isFC(ry):
+		case localObj(info, ry) == rec[2] && isFC(rx):
 			if m, ok := mirror[op]; ok {
 				op = m
 			}
@@ -313,7 +372,7 @@ func (st *state) loader(load, fetch, clear *core.Fn) {
 			p   string
 			val bool
 		}{{"_v != -1", true}, {"_v == -1", false}, {"_v >= 0", true}, {"_v < 0", false}} {
-			if b := pat.Expr(t.p).Match(info, f.Expr, nil); b != nil && f.Val == t.val && localObj(info, b["_v"].(ast.Expr)) == rec[2] {
+			if b := pat.Expr(t.p).Match(info, f.Expr, nil); b != nil && f.Val == t.val && localObj(info, tt.Resolve(info, body, b["_v"].(ast.Expr), 6)) == rec[2] {
 				return true
 			}
 		}
@@ -331,7 +390,8 @@ func (st *state) loader(load, fetch, clear *core.Fn) {
 					continue
 				}
 				gates++
-				accepts := g.Path(cfgq.Query{From: cfgq.Point{B: b.Succs[si]}, Target: isRet})
+				// flag- and nil-tracking search: `err = Errorf(..)` on this edge and `if err != nil { return }` later
+				accepts := x.Reach(tt.ReachQuery{From: cfgq.Point{B: b}, FromSucc: si, Env: tt.Env{}, Target: isRet})
 				switch {
 				case r == "<" && accepts != nil:
 					c.Check("R3.gate", "LoadCheckpoint/version-gate", f.Expr.Pos(), false, "a checkpoint whose version is below FeatureCompatibleVersion (written by an incompatible older release) is accepted and resumed", accepts...)
@@ -417,10 +477,13 @@ func (st *state) loader(load, fetch, clear *core.Fn) {
 		n := 0
 		for _, call := range core.Calls(body, info, func(_ *ast.CallExpr, callee types.Object) bool { return callee == types.Object(clear.Obj) }) {
 			n++
-			okArgs := len(call.Args) == 6 && localObj(info, call.Args[2]) == rec[3] && mpExpr != nil && pat.Same(info, call.Args[3], mpExpr)
+			same := func(a, b ast.Expr) bool { // the same value, seen through single-assignment copies
+				return pat.Same(info, tt.Resolve(info, body, a, 6), tt.Resolve(info, body, b, 6))
+			}
+			okArgs := len(call.Args) == 6 && localObj(info, call.Args[2]) == rec[3] && mpExpr != nil && same(call.Args[3], mpExpr)
 			okSrc := false
 			if srcExpr != nil && nameExpr != nil && len(call.Args) == 6 {
-				okSrc = pat.Same(info, call.Args[4], srcExpr) && pat.Same(info, call.Args[5], nameExpr)
+				okSrc = same(call.Args[4], srcExpr) && same(call.Args[5], nameExpr)
 			}
 			cp, _ := g.Find(call)
 			dom := g.Path(cfgq.Query{From: g.Entry(), Target: isRet, Avoid: func(nd ast.Node) bool { return nd == cp.Node() }}) == nil
@@ -459,9 +522,10 @@ func isDo(info *types.Info, call *ast.CallExpr, cmd string) bool {
 func (st *state) clearer(fn *core.Fn) {
 	c := st.c
 	info := fn.Pkg.TypesInfo
-	body := fn.Decl.Body
-	g := cfgq.Of(c.Program, fn)
-	x := tt.New(g)
+	view := tt.ViewOf(c.Program, fn, "c14", st.opaque)
+	body := view.Body
+	g := view.G
+	x := view.X(c.Program)
 	hdels := g.Points(g.HasCall(func(call *ast.CallExpr, _ types.Object) bool { return isDo(info, call, "hdel") }))
 	if len(hdels) != 1 {
 		c.Undecidedf("R5.clear", "ClearCheckpoint/hdel", fn.Decl.Pos(), "expected one `c.Do(\"hdel\", ...)`, found %d", len(hdels))
@@ -545,9 +609,10 @@ func (st *state) clearer(fn *core.Fn) {
 func (st *state) errors(fn *core.Fn) {
 	c := st.c
 	info := fn.Pkg.TypesInfo
-	body := fn.Decl.Body
-	g := cfgq.Of(c.Program, fn)
-	x := tt.New(g)
+	view := tt.ViewOf(c.Program, fn, "c14", st.opaque)
+	body := view.Body
+	g := view.G
+	x := view.X(c.Program)
 	for _, p := range g.Points(g.HasCall(func(call *ast.CallExpr, _ types.Object) bool { return isDo(info, call, "") })) {
 		var call *ast.CallExpr
 		for _, cl := range cfgq.ExecCalls(p.Node()) {
